@@ -3,6 +3,7 @@ import json, re, time
 from fractions import Fraction as F
 from core import build, unitgen as G, units_ref as R, facts as FX
 from core.driver import Driver, DriverDied, DriverTimeout
+from core import multi
 from core.run import Acc, finish, rng_for, run_shards, NCPU
 from c02 import mag
 
@@ -187,6 +188,9 @@ def shard(p):
                 acc.violate("c13:%s:unequal" % law, "%s: %r = %s [%s] but %s = %s [%s]" % (law, q1, n1[0], G.si.fmt_dims(n1[1]), q2 or "the law's constant", n2[0], G.si.fmt_dims(n2[1])), case)
             else:
                 acc.sample({"law": law, "lhs": q1, "rhs": q2 or str(const[0]), "si_value": str(n1[0]), "dims": G.si.fmt_dims(n1[1])}, cap=1)
+        # several expressions in one query string: each gives what it gives alone (core/multi.py)
+        _qs = [r["q"] for r in reqs if len(r["q"]) < 300]
+        multi.stage(acc, d, rng.sample(_qs, min(len(_qs), 300)), rng, 200, PID, p.get("kind", "dbg"))
     finally:
         d.close()
     return acc
